@@ -509,7 +509,7 @@ def c18_slice(root, thorough):
     n = 120 if thorough else 16
     try:
         results = core.pmap(exec_job, [(root, i, thorough, 'C18') for i in range(n)], jobs=min(core.ncpu(), 8),
-                            chunk=1, wall_per_chunk=600, budget_s=300 if thorough else 60,
+                            chunk=1, wall_per_chunk=1800, budget_s=300 if thorough else 60,
                             min_items=8, hard_budget_s=900 if thorough else 240)
     except core.WorkerDied as e:
         print('HARNESS-FAILURE C18 slice: %s' % e)
